@@ -244,7 +244,13 @@ func (p *Element) SetBytesUncompressed(buf []byte, trusted bool) error {
 	}
 
 	var x fp.Element
-	x.SetBytes(buf[:coordinateSize])
+	if trusted {
+		x.SetBytes(buf[:coordinateSize])
+	} else if err := x.SetBytesCanonical(buf[:coordinateSize]); err != nil {
+		// an untrusted x coordinate must be a canonical field encoding (< p), as in the compressed form;
+		// otherwise x and x+p would be two accepted encodings of the same element
+		return fmt.Errorf("invalid uncompressed point: %s", err)
+	}
 
 	var y fp.Element
 	// point in curve & subgroup check
